@@ -6,7 +6,7 @@ for d in /tmp/mut/$L[0-9][0-9]/_out/m*; do
   [ -f $d/patch.diff ] && [ -f $d/meta.json ] || continue
   w=$(basename $(dirname $(dirname $d))); k=$(basename $d)
   p=C$(echo $w | cut -c2-)
-  id=$p-r4$k; [ $L != G ] && id=$p-$L$k
+  id=$p-${TAG:-r4}$k
   out=/tmp/mut/results/$id.log
   [ -f $out ] && [ -z "$FORCE" ] && continue
   ${RUNNER:-/verif/tools/mutant_wt.sh} /tmp/mut/$w $d $p > $out 2>&1
